@@ -11,6 +11,12 @@ use tokio::io::{AsyncRead, AsyncWrite, ReadBuf};
 pub enum Sched {
     /// offer at most n bytes on the next read
     Chunk(usize),
+    /// the same, but the transport fills its buffer the other legal way: `initialize_unfilled()`
+    /// (which marks the WHOLE offered buffer initialised) and then `advance(n)` — as TLS and
+    /// compat wrappers do — instead of `put_slice`
+    InitChunk(usize),
+    /// every further read offers at most n bytes (sticky: never used up); oracle-side only
+    Rest(usize),
     /// answer the next read with Pending
     Pending,
     /// answer the next read with Pending, and the driver drops + re-creates the future
@@ -47,7 +53,9 @@ impl AsyncRead for ScriptReader {
         me.requests.push((me.pos, buf.remaining()));
         let item = if me.sidx < me.sched.len() {
             let it = me.sched[me.sidx];
-            me.sidx += 1;
+            if !matches!(it, Sched::Rest(_)) {
+                me.sidx += 1;
+            }
             Some(it)
         } else {
             None
@@ -70,10 +78,16 @@ impl AsyncRead for ScriptReader {
                     };
                 }
                 let mut n = avail.min(buf.remaining());
-                if let Some(Sched::Chunk(c)) = other {
+                if let Some(Sched::Chunk(c)) | Some(Sched::InitChunk(c)) | Some(Sched::Rest(c)) = other {
                     n = n.min(c.max(1));
                 }
-                buf.put_slice(&me.data[me.pos..me.pos + n]);
+                if let Some(Sched::InitChunk(_)) = other {
+                    let dst = buf.initialize_unfilled();
+                    dst[..n].copy_from_slice(&me.data[me.pos..me.pos + n]);
+                    buf.advance(n);
+                } else {
+                    buf.put_slice(&me.data[me.pos..me.pos + n]);
+                }
                 me.pos += n;
                 Poll::Ready(Ok(()))
             }
@@ -89,6 +103,9 @@ pub enum WItem {
     /// accept zero bytes (Ok(0))
     Zero,
     Err(io::ErrorKind),
+    /// (first item only) the sink GATHERS: it overrides `write_vectored` / `poll_write_vectored` and
+    /// applies each following item to the concatenation of the offered slices, as sockets and files do
+    Gather,
 }
 
 /// Sink: follows `script`, afterwards accepts everything.
@@ -97,11 +114,39 @@ pub struct ScriptWriter {
     pub script: Vec<WItem>,
     pub idx: usize,
     pub calls: usize,
+    pub gather: bool,
 }
 
 impl ScriptWriter {
-    pub fn new(script: Vec<WItem>) -> Self {
-        ScriptWriter { written: Vec::new(), script, idx: 0, calls: 0 }
+    pub fn new(mut script: Vec<WItem>) -> Self {
+        let gather = script.first() == Some(&WItem::Gather);
+        if gather {
+            script.remove(0);
+        }
+        script.retain(|i| *i != WItem::Gather);
+        ScriptWriter { written: Vec::new(), script, idx: 0, calls: 0, gather }
+    }
+    /// one scripted step over the concatenation of `bufs`
+    fn gathered(&mut self, bufs: &[io::IoSlice<'_>]) -> Option<io::Result<usize>> {
+        self.calls += 1;
+        let total: usize = bufs.iter().map(|b| b.len()).sum();
+        let n = match self.next() {
+            Some(WItem::Pending) => return None,
+            Some(WItem::Zero) => return Some(Ok(0)),
+            Some(WItem::Err(k)) => return Some(Err(k.into())),
+            Some(WItem::Accept(n)) => n.max(1).min(total),
+            Some(WItem::Gather) | None => total,
+        };
+        let mut left = n;
+        for b in bufs {
+            let k = left.min(b.len());
+            self.written.extend_from_slice(&b[..k]);
+            left -= k;
+            if left == 0 {
+                break;
+            }
+        }
+        Some(Ok(n))
     }
     fn next(&mut self) -> Option<WItem> {
         if self.idx < self.script.len() {
@@ -130,11 +175,29 @@ impl AsyncWrite for ScriptWriter {
                 me.written.extend_from_slice(&buf[..n]);
                 Poll::Ready(Ok(n))
             }
-            None => {
+            Some(WItem::Gather) | None => {
                 me.written.extend_from_slice(buf);
                 Poll::Ready(Ok(buf.len()))
             }
         }
+    }
+    fn poll_write_vectored(self: Pin<&mut Self>, cx: &mut Context<'_>, bufs: &[io::IoSlice<'_>]) -> Poll<io::Result<usize>> {
+        let me = self.get_mut();
+        if !me.gather {
+            // what tokio's default does: the first non-empty slice through poll_write
+            let buf = bufs.iter().find(|b| !b.is_empty()).map_or(&[][..], |b| &**b);
+            return Pin::new(me).poll_write(cx, buf);
+        }
+        match me.gathered(bufs) {
+            None => {
+                cx.waker().wake_by_ref();
+                Poll::Pending
+            }
+            Some(r) => Poll::Ready(r),
+        }
+    }
+    fn is_write_vectored(&self) -> bool {
+        self.gather
     }
     fn poll_flush(self: Pin<&mut Self>, _cx: &mut Context<'_>) -> Poll<io::Result<()>> {
         Poll::Ready(Ok(()))
@@ -149,7 +212,7 @@ impl io::Write for ScriptWriter {
         self.calls += 1;
         match self.next() {
             // a synchronous sink has no Pending: treat it as "accept everything"
-            Some(WItem::Pending) | None => {
+            Some(WItem::Pending) | Some(WItem::Gather) | None => {
                 self.written.extend_from_slice(buf);
                 Ok(buf.len())
             }
@@ -159,6 +222,18 @@ impl io::Write for ScriptWriter {
                 let n = n.max(1).min(buf.len());
                 self.written.extend_from_slice(&buf[..n]);
                 Ok(n)
+            }
+        }
+    }
+    fn write_vectored(&mut self, bufs: &[io::IoSlice<'_>]) -> io::Result<usize> {
+        if !self.gather {
+            let buf = bufs.iter().find(|b| !b.is_empty()).map_or(&[][..], |b| &**b);
+            return self.write(buf);
+        }
+        loop {
+            // (a synchronous sink has no Pending: skip such items)
+            if let Some(r) = self.gathered(bufs) {
+                return r;
             }
         }
     }
